@@ -112,6 +112,30 @@ def pelt_helpers(ctx):
         ctx.violation(f"get_changepoints({meta[i]['prev_cpts']}) = {meta[i]['impl']}: not the chain of last-segment starts followed back from the last observation",
                       meta[i], {"what": "helper", "fn": "get_changepoints"})
 
+    # ---- run_pelt called directly (a public module-level function): the result must not depend on the Python TYPE of the penalty (int, np.int64, float) ----
+    from skchange.change_detectors.pelt import run_pelt
+    from skchange.costs import GaussianVarCost, L2Cost
+    for it in range(ctx.n(12, 80)):
+        n = rng.randint(8, 40)
+        m = rng.choice([1, 2, 3])
+        x = np.asarray([[rng.gauss(0, 1)] for _ in range(n)])
+        x[rng.randint(2, n - 2):] += rng.choice([2.5, -3.5])
+        pen = rng.choice([0, 1, 2, 4, 7])
+        mk = L2Cost if (it % 2 == 0 or m < 2) else GaussianVarCost
+        ref_s, ref_c = run_pelt(x, mk(), float(pen), m)
+        ctx.case({"run_pelt_penalty_type": it, "n": n, "m": m, "pen": pen, "x0": float(x[0, 0])}, nontrivial=len(ref_c) > 0)
+        for tag, pv in (("int", int(pen)), ("np.int64", np.int64(pen)), ("np.float32", np.float32(pen))):
+            try:
+                s_, c_ = run_pelt(x, mk(), pv, m)
+            except Exception as ex:
+                ctx.violation(f"run_pelt(X, {mk.__name__}(), penalty={tag}({pen}), {m}) raised {type(ex).__name__}: {str(ex)[:100]}", {"X": x.ravel().tolist(), "penalty": pen, "m": m},
+                              {"what": "helper", "fn": "run_pelt", "penalty_type": tag})
+                continue
+            if [int(v) for v in c_] != [int(v) for v in ref_c] or not np.allclose(np.asarray(s_, dtype=float), np.asarray(ref_s, dtype=float), rtol=1e-12, atol=1e-12):
+                ctx.violation(f"run_pelt(X, {mk.__name__}(), penalty={tag}({pen}), min_segment_length={m}): changepoints {[int(v) for v in c_]} / scores differ from those for the same "
+                              f"penalty given as a float ({[int(v) for v in ref_c]}): the optimal-cost table must not take its dtype from the penalty",
+                              {"X": x.ravel().tolist(), "penalty": pen, "m": m, "penalty_type": tag}, {"what": "helper", "fn": "run_pelt", "penalty_type": tag})
+
 
 def capa_helpers(ctx):
     from skchange.anomaly_detectors.mvcapa import get_anomalies, penalise_savings
